@@ -1,0 +1,6 @@
+//go:build verif
+
+package encoding
+
+// VerifListValueMaxSize is the allocation bound of the reflection decoder.
+const VerifListValueMaxSize = listValueMaxSize
